@@ -39,4 +39,15 @@ theorem aget_aset {β : Type} (l : List (Key × β)) (k k' : Key) (v : β) :
   · subst h; simp [aget_aset_self]
   · simp [h, aget_aset_other l k k' v h]
 
+/-- registering keys one by one never touches other keys -/
+theorem foldl_aset_other (keys : List Key) (d : Nat) (m : List (Key × Nat)) (k : Key) (hk : k ∉ keys) :
+    aget (keys.foldl (fun m k => aset m k d) m) k = aget m k := by
+  induction keys generalizing m with
+  | nil => rfl
+  | cons x xs ih =>
+    simp only [List.foldl_cons]
+    rw [ih _ (fun h => hk (by simp [h]))]
+    exact aget_aset_other m x k d (fun h => hk (by simp [h]))
+
+
 end Dig
